@@ -64,6 +64,29 @@ Theorem C03_source_events_blocked : forall t, TrackerSrc.events_blocked_src t = 
 Proof. exact SrcTieP.events_blocked_tie. Qed.
 
 
+(* ---- source tie, fourth wave (DESIGN 11.7): ActionBind::update regenerated from the Rust source (Generated/ActionSrc.v).
+   step:   the generated loop-body function equals the model's input step (`istep` = Model/Action.input_step without the
+           instrumentation log, with the source-derived combine_src / overwrite_src plugged in), Leibniz, for every tracker,
+           consume buffer, consumed set and binding;
+   update: the generated whole function (initial tracker, loop, action-level chain, convert, consume block, ActionData::update,
+           events gate) equals the model's action update `aupd` with the source-derived helpers, Leibniz;
+   model:  `aupd` / `istep` with the MODEL's helpers are Model/Action.action_update / input_step (projected to binding, stored
+           data, consumed set, events).  The statements are those of Proofs/SrcTie4P.v (step_tie, update_tie, aupd_model,
+           istep_model), restated here by their types; the only hypothesis is the meaning of `raw_value` (outside the subset). ---- *)
+From BEI Require Generated.ActionSrc Proofs.SrcTie4P.
+Theorem C03_source_action_step : ltac:(let t := type of SrcTie4P.step_tie in exact t).
+Proof. exact SrcTie4P.step_tie. Qed.
+
+Theorem C03_source_action_update : ltac:(let t := type of SrcTie4P.update_tie in exact t).
+Proof. exact SrcTie4P.update_tie. Qed.
+
+Theorem C03_source_action_model : ltac:(let t := type of SrcTie4P.aupd_model in exact t).
+Proof. exact SrcTie4P.aupd_model. Qed.
+
+Theorem C03_source_input_step_model : ltac:(let t := type of SrcTie4P.istep_model in exact t).
+Proof. exact SrcTie4P.istep_model. Qed.
+
+
 Print Assumptions C03_tracker_law.
 Print Assumptions C03_conditions_keep_value.
 Print Assumptions C03_both_levels.
@@ -100,3 +123,7 @@ Print Assumptions C03_source_tracker_state.
 Print Assumptions C03_source_apply_condition.
 Print Assumptions C03_source_new_tracker.
 Print Assumptions C03_source_events_blocked.
+Print Assumptions C03_source_action_step.
+Print Assumptions C03_source_action_update.
+Print Assumptions C03_source_action_model.
+Print Assumptions C03_source_input_step_model.
